@@ -538,7 +538,9 @@ def stdin_text(b):
     try:
         s = b.decode("utf-8")
     except UnicodeDecodeError:
-        return []          # only used with input_format raw
+        # the real read() raises UnicodeDecodeError (a ValueError): an impossible code point makes the model's hex/bin
+        # branches fail as well; input_format raw does not look at the text
+        return [-1]
     return _cps(s.replace("\r\n", "\n").replace("\r", "\n"))
 
 
@@ -706,7 +708,7 @@ FILE_VALUES = {
     "rpc_password": ["file-pw", "fp2"],
     "rpc_datadir": ["file-datadir", "fd2", ""],
 }
-UNKNOWN_KEYS = ["foo", "config_dir", "subcommand", "in_file", "log_level__explicit", "output_format__explicit",
+UNKNOWN_KEYS = ["foo", "self", "config_dir", "subcommand", "in_file", "log_level__explicit", "output_format__explicit",
                 "Self", "loglevel", "log-level", "network ", ""]
 
 
@@ -796,9 +798,12 @@ def gen_prec_cases(rng, tier):
         for (c, fj) in [("pem", None), ("pem", "hex"), (None, "pem"), ("x", "pem")]:
             cli = [("output_format", c)] if c is not None or fj is None else []
             out.append(_mk_main_case("prec-%s-pem" % sub, sub, True, cli, None, None if fj is None else {"output_format": fj}))
-    # the `self` key: see KNOWN / the report (Config.__init__( **{"self": ...}) is a TypeError)
-    out.append(_mk_main_case("unknown-self", "", True, [], None, {"self": "x"}, b"00\n"))
-    out.append(_mk_main_case("unknown-self", "sha256", True, [], {"self": "x"}, None))
+    # a key called `self` is an unknown key like any other (it used to reach Config.__init__( **{"self": ...}): TypeError)
+    for sub in (["", "sha256", "key", "rpc"] if not T else list(ACCEPTS)):
+        stdin = b"00\n" if sub == "" else None
+        out.append(_mk_main_case("unknown-self", sub, True, [], None, {"self": "x"}, stdin))
+        out.append(_mk_main_case("unknown-self", sub, True, [], {"self": "x", "log_level": "debug"}, None, stdin))
+        out.append(_mk_main_case("unknown-self", sub, False, [("log_level", "info")], {"self": "y"}, {"self": "x", "log_level": "debug"}, stdin))
     # the base command end to end: conversions through main(), all 9 format pairs
     datas = [b"", b"\0", b"\0\0\1", b"\xff", b"\xff\xff", b"\x00\xff", b"\x0a", b"\x0d\x0a", b" ", bytes(range(256))[:64]]
     for L in (0, 1, 2):
@@ -1021,17 +1026,6 @@ def prop_oracle(c):
     return None
 
 
-def _is_self_case(c):
-    if c["op"] not in ("main_base", "main_sub"):
-        return False
-    a = c["args"]
-    files = a[2:4] if c["op"] == "main_base" else a[3:5]
-    return any(f is not None and any(k == "self" for k, _ in f) for f in files)
-
-
-KNOWN = {"c20-config-key-self": _is_self_case}
-
-
 def extra_checks(ctx):
     """(1) the static ACCEPTS table of this module still describes the live parser;
        (2) the literal property (prop_oracle) on every precedence case and on the conversion cases -- this is what
@@ -1054,7 +1048,7 @@ def extra_checks(ctx):
     n = bad = k = 0
     seen = set()
     for c in cases:
-        if c["cls"] == "unknown-self" or c["op"] == "accepts_table":
+        if c["op"] == "accepts_table":
             continue
         k += 1
         if c["cls"] in ("w-exh2", "conv-exh2", "w-exh3-sample", "conv-exh3-sample", "r-bin-fuzz", "r-hex-fuzz") and k % 4:
